@@ -131,10 +131,11 @@ func c03FailingRuns(s *sut.SUT, c *ev.Check, items []Item) {
 	}
 	long := []byte(`{"t":{"$date":"2025-01-01T00:00:00.000+00:00"},"s":"I","c":"COMMAND","id":51803,"ctx":"conn1","msg":"Slow query","attr":{"type":"command","ns":"db.c","command":{"find":"c","filter":{"k":"` + strings.Repeat("L", 70000) + `"},"$db":"db"}}}`)
 	type fr struct {
-		name string
-		data []byte
-		gz   bool
-		n    int // lines that can have been emitted at most
+		name  string
+		data  []byte
+		gz    bool
+		n     int  // lines that can have been emitted at most
+		stale bool // a complete run whose -o target already holds an older, longer file
 	}
 	var runs []fr
 	join := func(its []Item, extraAt int) []byte {
@@ -154,12 +155,13 @@ func c03FailingRuns(s *sut.SUT, c *ev.Check, items []Item) {
 		return b.Bytes()
 	}
 	for _, at := range []int{1, len(good) / 3, len(good) - 1, len(good)} {
-		runs = append(runs, fr{fmt.Sprintf("over-long line before line %d of %d", at, len(good)), join(good, at), false, at})
+		runs = append(runs, fr{fmt.Sprintf("over-long line before line %d of %d", at, len(good)), join(good, at), false, at, false})
 	}
 	whole := gz(join(good, -1))
 	for _, cut := range []int{len(whole) / 4, len(whole) / 2, 3 * len(whole) / 4, len(whole) - 9, len(whole) - 1} {
-		runs = append(runs, fr{fmt.Sprintf("gzip input cut at byte %d of %d", cut, len(whole)), whole[:cut], true, len(good)})
+		runs = append(runs, fr{fmt.Sprintf("gzip input cut at byte %d of %d", cut, len(whole)), whole[:cut], true, len(good), false})
 	}
+	runs = append(runs, fr{name: "complete run onto an existing longer output file", data: join(good[:40], -1), n: 40, stale: true})
 	fsets := []Flags{{}, {N: true, B: true, W: true}}
 	parallelDo(len(runs)*3*len(fsets), func(j int) {
 		r := runs[j%len(runs)]
@@ -176,6 +178,12 @@ func c03FailingRuns(s *sut.SUT, c *ev.Check, items []Item) {
 		}
 		os.WriteFile(in, r.data, 0o644)
 		outp := filepath.Join(dir, "out.log")
+		if r.stale {
+			if ch != 1 {
+				return
+			}
+			os.WriteFile(outp, bytes.Repeat([]byte(`{"stale":"older output"}`+"\n"), 20000), 0o644)
+		}
 		args := append([]string{"redact"}, f.Args(j, "")...)
 		run := sut.Run{Dir: dir}
 		switch ch {
